@@ -287,6 +287,11 @@ func (vc *VC) heap(st *State, name string, s *Sort) *Term {
 			vc.axiom(f.S)
 		}
 	}
+	if first && (strings.HasPrefix(name, "MV_") || strings.HasPrefix(name, "HA_")) && s.Elem != nil && s.Elem.Elem != nil {
+		if f := vc.heapFacts2(t, s.Elem.Key, s.Elem.Elem, T(sortInt, "alloc_0")); f != nil {
+			vc.axiom(f.S)
+		}
+	}
 	return t
 }
 
@@ -323,10 +328,16 @@ type mapHeaps struct {
 	k, e       *Sort
 }
 
-func (vc *VC) mapHeapsOf(st *State, k, e *Sort) mapHeaps {
-	suffix := smtName(k.Name) + "_" + smtName(e.Name)
-	mh := mapHeaps{pn: "MP_" + suffix, vn: "MV_" + suffix, nn: "MN_" + suffix, k: k, e: e}
+// mapHeapsOf: the three heaps (presence, values, cardinality) holding all maps of one Go map
+// type. Maps of different Go types live in different heaps (they can never alias).
+func (vc *VC) mapHeapsOf(st *State, mt *types.Map) mapHeaps {
 	T := vc.eng.st
+	k, e := T.SortOf(mt.Key()), T.SortOf(mt.Elem())
+	suffix := smtName(shortTypeName(mt.Key())) + "_" + smtName(shortTypeName(mt.Elem()))
+	if len(suffix) > 70 {
+		suffix = fmt.Sprintf("%s_%d", suffix[:60], vc.eng.tagOf(mt))
+	}
+	mh := mapHeaps{pn: "MP_" + suffix, vn: "MV_" + suffix, nn: "MN_" + suffix, k: k, e: e}
 	mh.p = vc.heap(st, mh.pn, T.ArrayOf(sortInt, T.ArrayOf(k, sortBool)))
 	mh.v = vc.heap(st, mh.vn, T.ArrayOf(sortInt, T.ArrayOf(k, e)))
 	mh.n = vc.heap(st, mh.nn, T.ArrayOf(sortInt, sortInt))
